@@ -539,8 +539,10 @@ func (g *gen) doc(d int) *D {
 		out = node(KW{Name: "anyOf", Subs: g.members(d, 1+g.r.Intn(3))})
 	case k < 88:
 		out = node(KW{Name: "oneOf", Subs: g.members(d, 1+g.r.Intn(3))})
-	case k < 94:
+	case k < 91:
 		out = node(KW{Name: "allOf", Subs: g.members(d, 1+g.r.Intn(3))})
+	case k < 94:
+		out = g.objectComposition(d)
 	case k < 98:
 		out = node(KW{Name: "ref", Sub: g.doc(d - 1)})
 	default:
@@ -679,6 +681,7 @@ func (g *gen) cands(d *D, depth int) []*J {
 		case "items", "prefixItems", "minItems", "maxItems":
 			// handled below (arrays are built once)
 		case "anyOf", "oneOf", "allOf":
+			out = append(out, g.jointObjectCands(k.Subs, depth)...)
 			for _, m := range k.Subs {
 				for i, c := range g.cands(m, depth+1) {
 					if i < subLimit(m, 9) {
@@ -1014,6 +1017,9 @@ func main() {
 	docs := corpus()
 	for i := 0; i < n; i++ {
 		docs = append(docs, g.doc(2))
+		if i%10 == 3 { // compositions of object schemas sharing property names (compose.go)
+			docs = append(docs, g.objectComposition(2))
+		}
 		if i%8 == 0 { // root const / enum documents whose members may be arrays and objects
 			if g.r.Chance(30) {
 				docs = append(docs, node(KW{Name: "const", Prims: []*J{g.compositeVal(2)}}))
@@ -1042,6 +1048,32 @@ func main() {
 			out.Count("kw:" + k.Name)
 		}
 		walkDocs(d, func(sd *D) {
+			for _, name := range []string{"allOf", "anyOf", "oneOf"} {
+				if k := sd.get(name); k != nil && len(k.Subs) > 1 {
+					n, shared := 0, false
+					seenP := map[string]bool{}
+					for _, m := range k.Subs {
+						if objectish(m) {
+							n++
+							if p := m.get("properties"); p != nil {
+								for _, pr := range p.Props {
+									shared = shared || seenP[pr.K]
+								}
+								for _, pr := range p.Props {
+									seenP[pr.K] = true
+								}
+							}
+						}
+					}
+					if n >= 2 {
+						c := "composition:" + name + "-of-objects"
+						if shared {
+							c += "+shared-property"
+						}
+						out.Count(c)
+					}
+				}
+			}
 			for _, k := range sd.Kws {
 				if k.Name == "const" || k.Name == "enum" {
 					out.Count("members:" + memberClass(k.Prims))
